@@ -281,6 +281,9 @@ func (f *file) writeBlobAt(op string, p blob.Blob, off int64) (n int, err error)
 	if off < 0 {
 		return 0, &hackpadfs.PathError{Op: op, Path: f.path, Err: errors.New("negative offset")}
 	}
+	if p.Len() == 0 {
+		return 0, nil // like os, writing nothing never extends the file
+	}
 
 	endIndex := off + int64(p.Len())
 	if size < endIndex {
